@@ -1,11 +1,303 @@
-import Gimli.Model.Unwind
+import Gimli.Lemmas.Unwind
+import Gimli.Lemmas.Cfi
 /-!
-# C06 — Unwind table rows equal DWARF call-frame semantics (work in progress)
+# C06 — Unwind table rows equal DWARF call-frame semantics
+
+Property theorems only (helper lemmas live in `Gimli/Lemmas/{Rules,Unwind,Cfi}.lean`).
+
+* **Model** (`Gimli/Model/{Cfi,Unwind}.lean`, tied to `src/read/cfi.rs` + `src/read/util.rs` by the
+  correspondence run): `CallFrameInstruction::parse`, `UnwindTable::{new,next_row,evaluate}`,
+  `UnwindContext::{initialize,reset,save_initial_rules,get_initial_rule,push_row,pop_row}`,
+  `RegisterRuleMap::{get,set,clear,eq}` over `ArrayVec` with capacities `R` rows / `N` rules.
+* **Spec** (`Gimli/Spec/Unwind.lean`): DWARF §6.4 with register columns as a function
+  `Reg → Option Rule`, an unbounded implicit stack and "initial rules = the columns after the CIE".
+
+Quantifiers: **every** instruction (all 23 `CallFrameInstruction` variants — no reduced alphabet),
+every instruction list in the CIE and in the FDE, every operand value, every alignment factor,
+every capacity pair (including unbounded), every initial address / length; address sizes 1..8;
+row capacity at least 1 (a zero-capacity stack panics in `UnwindContext::new_in`, API misuse).
+`tailOf bad` is how instruction *decoding* ended after the listed instructions: `none` = the
+stream ended cleanly, `some e` = the next instruction is undecodable with error `e`.
 -/
 namespace Gimli.Props.C06
-open Gimli Gimli.Cfi Gimli.Unwind
+open Gimli Gimli.Cfi Gimli.Unwind Gimli.Spec.Unwind
 
-/-- placeholder while the real theorems land -/
-theorem get_nil (r : Reg) : Rules.get [] r = none := rfl
+/-! ## 1. the unwind machine refines the call-frame semantics -/
+
+/-- **Main theorem.** For every CIE program, FDE program, alignment factors, address size 1..8 and
+capacities `(R ≥ 1, N)`: the rows returned by `UnwindTable::next_row` are, one by one, the rows of
+the DWARF semantics — same start, same end, same CFA rule, same `args_size`, and register rules
+equal **extensionally** (`∀ r, Rules.get row.rules r = specRow.rules.regs r`, with no duplicate
+entries in the vector) — and the run ends the same way: both complete, or both stop with the same
+error after the same rows.  The Spec side is `Spec.table`, i.e. the pure semantics `Spec.step`
+plus the two capacity checks of `Spec.stepB` that are *defined on the Spec state* (theorems
+`stackFull_iff`, `tooManyRules_iff`, `invalid_iff` below say exactly when each error arises).
+In particular the Model never returns a row that differs from the semantics. -/
+theorem unwind_refines (g : Cfg) (hsz : 1 ≤ g.addressSize ∧ g.addressSize ≤ 8) (hR : g.R.fits 1)
+    (cie fde : List Instr) (cieBad fdeBad : Option Err) (initial len : Nat) :
+    RowsRel (unwind g cie (tailOf cieBad) fde (tailOf fdeBad) initial len).1
+        (table g.params g.R g.N cie cieBad fde fdeBad initial len).1 ∧
+    FinalRel (unwind g cie (tailOf cieBad) fde (tailOf fdeBad) initial len).2
+        (table g.params g.R g.N cie cieBad fde fdeBad initial len).2 :=
+  unwind_refines_main g hsz hR cie fde cieBad fdeBad initial len
+
+/-- what `RowsRel` means for one row (unfolding of the definitions used in `unwind_refines`) -/
+theorem rowsRel_cons_iff (m : Row) (ms : List Row) (t : TableRow) (ts : List TableRow) :
+    RowsRel (m :: ms) (t :: ts) ↔
+      (m.startAddress = t.start ∧ m.endAddress = t.end_ ∧ m.cfa = t.rules.cfa ∧
+        m.savedArgsSize = t.rules.argsSize ∧ (∀ r, Rules.get m.rules r = t.rules.regs r) ∧
+        Rules.NodupKeys m.rules) ∧ RowsRel ms ts := by
+  constructor
+  · intro h
+    cases h with
+    | cons hr hrest => exact ⟨⟨hr.start, hr.end_, hr.rel.cfa, hr.rel.args, hr.rel.regs, hr.rel.nodup⟩, hrest⟩
+  · rintro ⟨⟨h1, h2, h3, h4, h5, h6⟩, hrest⟩
+    exact .cons ⟨h1, h2, ⟨h3, h4, h5, h6⟩⟩ hrest
+
+/-- row lists of different lengths are never related: the Model returns exactly as many rows as
+the semantics defines -/
+theorem rowsRel_length {ms : List Row} {ts : List TableRow} (h : RowsRel ms ts) : ms.length = ts.length := by
+  induction h with
+  | nil => rfl
+  | cons _ _ ih => simp [ih]
+
+/-- **`StackFull` exactly when the Spec run would exceed `R` rows**: the instrumented step fails with
+`StackFull` iff the instruction is valid and the state it leads to needs more rows than the
+storage has — counting the current row, the remembered ones and the one extra row held when the
+CIE leaves two or more initial rules (`Spec.rowsNeeded`). -/
+theorem stackFull_iff (p : Params) (R N : Cap) (s : State) (i : Instr) :
+    stepB p R N s i = .error .rStackFull ↔
+      ∃ s' row, step p s i = .ok (s', row) ∧ exceeds R (rowsNeeded s') = true := by
+  unfold stepB
+  cases hs : step p s i with
+  | error e =>
+    have := step_error_invalid hs
+    simp only [IsInvalid] at this
+    constructor
+    · intro h; cases h; simp at this
+    · rintro ⟨s', row, h, _⟩; cases h
+  | ok q =>
+    obtain ⟨s1, r1⟩ := q
+    simp only
+    by_cases hx : exceeds R (rowsNeeded s1) = true
+    · simp only [hx, if_true, true_iff]
+      exact ⟨s1, r1, rfl, hx⟩
+    · simp only [hx, Bool.false_eq_true, if_false]
+      constructor
+      · intro h; split at h <;> cases h
+      · rintro ⟨s', row, h, hx'⟩; cases h; exact absurd hx' hx
+
+/-- **`TooManyRegisterRules` exactly when a row would hold more than `N` explicit rules** (and the
+row stack is not the problem). -/
+theorem tooManyRules_iff (p : Params) (R N : Cap) (s : State) (i : Instr) :
+    stepB p R N s i = .error .rTooManyRegisterRules ↔
+      ∃ s' row, step p s i = .ok (s', row) ∧ exceeds R (rowsNeeded s') = false ∧
+        exceeds N (ruleCount s'.cur.regs) = true := by
+  unfold stepB
+  cases hs : step p s i with
+  | error e =>
+    have := step_error_invalid hs
+    simp only [IsInvalid] at this
+    constructor
+    · intro h; cases h; simp at this
+    · rintro ⟨s', row, h, _⟩; cases h
+  | ok q =>
+    obtain ⟨s1, r1⟩ := q
+    simp only
+    by_cases hx : exceeds R (rowsNeeded s1) = true
+    · simp only [hx, if_true]
+      constructor
+      · intro h; cases h
+      · rintro ⟨s', row, h, hx', _⟩; cases h; rw [hx] at hx'; cases hx'
+    · have hx0 : exceeds R (rowsNeeded s1) = false := by simpa using hx
+      simp only [hx0, Bool.false_eq_true, if_false]
+      by_cases hn : exceeds N (ruleCount s1.cur.regs) = true
+      · simp only [hn, if_true, true_iff]
+        exact ⟨s1, r1, rfl, hx0, hn⟩
+      · simp only [hn, Bool.false_eq_true, if_false]
+        constructor
+        · intro h; cases h
+        · rintro ⟨s', row, h, _, hn'⟩; cases h; exact absurd hn' hn
+
+/-- **`CfiInstructionInInvalidContext` / `PopWithEmptyStack` / `AddressOverflow` /
+`InvalidCfiSetLoc` exactly where the semantics says the instruction is invalid**: the capacity
+instrumentation neither adds nor hides a validity error, and the pure semantics raises no other
+error. -/
+theorem invalid_iff (p : Params) (R N : Cap) (s : State) (i : Instr) (e : Err) (he : IsInvalid e) :
+    stepB p R N s i = .error e ↔ step p s i = .error e := by
+  unfold stepB
+  cases hs : step p s i with
+  | error e' => simp
+  | ok q =>
+    obtain ⟨s1, r1⟩ := q
+    simp only
+    constructor
+    · intro h
+      exfalso
+      unfold IsInvalid at he
+      split at h
+      · cases h; simp at he
+      · split at h
+        · cases h; simp at he
+        · cases h
+    · intro h; cases h
+
+/-- the pure semantics only ever raises the four validity errors -/
+theorem spec_errors (p : Params) (s : State) (i : Instr) (e : Err) (h : step p s i = .error e) :
+    IsInvalid e :=
+  step_error_invalid h
+
+/-! ## 2. the `initial_rule` optimisation -/
+
+/-- **The 0/1-rule shortcut and the saved `stack[0]` row agree with "the map after the CIE
+program".** Whatever register rules the current row holds when `save_initial_rules` runs — none
+(`initial_rule = Some(None)`), exactly one (`Some(Some(rule))`), or more (a copy of the row is
+inserted at `stack[0]`) — `get_initial_rule(r)` afterwards answers `Some(row.register(r))` for
+every register `r`.  (That the answer stays the same during the FDE program — `pop_row` never
+pops the saved row, no instruction writes it — is part of `unwind_refines`: `DW_CFA_restore` in
+the Model always installs the Spec's fixed initial rule.) -/
+theorem initial_rule_opt_sound (R : Cap) (c c' : Ctx) (top : Row) (rest : List Row)
+    (hst : c.stack = top :: rest) (h : saveInitialRules R c = .ok c') (r : Reg) :
+    c'.getInitialRule r = .ok (some (Rules.get top.rules r)) :=
+  saveInitialRules_getInitialRule hst h r
+
+/-- `save_initial_rules` fails only with `StackFull`, and only in the many-rules case when the
+row stack is already full -/
+theorem save_initial_rules_error (R : Cap) (c : Ctx) (top : Row) (rest : List Row)
+    (hst : c.stack = top :: rest) (e : Err) (h : saveInitialRules R c = .err e) :
+    e = .rStackFull ∧ 2 ≤ top.rules.length ∧ R.hasRoom c.stack.length = false := by
+  unfold saveInitialRules at h
+  rw [hst] at h
+  simp only at h
+  match hrules : top.rules with
+  | [] => rw [hrules] at h; cases h
+  | [rule] => rw [hrules] at h; cases h
+  | r1 :: r2 :: rs =>
+    rw [hrules] at h
+    simp only at h
+    split at h
+    · cases h
+    · rename_i hroom
+      cases h
+      refine ⟨rfl, by simp, ?_⟩
+      rw [hst]; simpa using hroom
+
+/-! ## 3. rows are contiguous, non-decreasing and end at the FDE's end address -/
+
+/-- **Contiguity.** The returned rows tile the address space from the FDE's initial address:
+the first row starts at `initial`, every next row starts where the previous one ended, and every
+row that has a successor satisfies `start ≤ end` (`Tiles`); so starts are non-decreasing.
+If the table completes, there is a last row and it ends at the FDE's end address
+`(initial + len) mod 2^(8·address_size)`.  If it stops with an error, every row returned before
+satisfies `start ≤ end`. -/
+theorem rows_contiguous (g : Cfg) (hsz : 1 ≤ g.addressSize ∧ g.addressSize ≤ 8) (hR : g.R.fits 1)
+    (cie fde : List Instr) (cieBad fdeBad : Option Err) (initial len : Nat) :
+    Tiles initial (rowSpans (unwind g cie (tailOf cieBad) fde (tailOf fdeBad) initial len).1) ∧
+    ((unwind g cie (tailOf cieBad) fde (tailOf fdeBad) initial len).2 = .ok () →
+      ∃ last, (unwind g cie (tailOf cieBad) fde (tailOf fdeBad) initial len).1.getLast? = some last ∧
+        last.endAddress = fdeEnd g.params initial len) ∧
+    (∀ e, (unwind g cie (tailOf cieBad) fde (tailOf fdeBad) initial len).2 = .err e →
+      ∀ r ∈ (unwind g cie (tailOf cieBad) fde (tailOf fdeBad) initial len).1, r.startAddress ≤ r.endAddress) :=
+  rows_contiguous_main g hsz hR cie fde cieBad fdeBad initial len
+
+/-- `Tiles` spelled out for two consecutive rows -/
+theorem tiles_cons_cons (a s e s' e' : Nat) (rest : List (Nat × Nat)) :
+    Tiles a ((s, e) :: (s', e') :: rest) ↔ s = a ∧ s ≤ e ∧ Tiles e ((s', e') :: rest) := Iff.rfl
+
+/-! ## 4. the register rule map -/
+
+/-- **Deleting via `swap_remove` preserves the extensional map**: after `clear(r)` register `r`
+has no rule, every other register has the rule it had, and no register has two entries. -/
+theorem swap_remove_ext (m : Rules) (hn : Rules.NodupKeys m) (r : Reg) :
+    (∀ x, Rules.get (Rules.clear m r) x = if x = r then none else Rules.get m x) ∧
+    Rules.NodupKeys (Rules.clear m r) :=
+  ⟨fun x => Rules.clear_get hn r x, Rules.clear_nodup hn r⟩
+
+/-- `set` updates the extensional map at `r` only, keeps entries unique, and grows the vector by
+one exactly when `r` had no entry; it fails only with `TooManyRegisterRules`, and only when `r`
+has no entry and the vector is full -/
+theorem set_ext (N : Cap) (m : Rules) (r : Reg) (v : Rule) :
+    (∃ m', Rules.set N m r v = .ok m' ∧
+      (∀ x, Rules.get m' x = if x = r then some v else Rules.get m x) ∧
+      (Rules.NodupKeys m → Rules.NodupKeys m') ∧
+      m'.length = (if Rules.get m r = none then m.length + 1 else m.length)) ∨
+    (Rules.set N m r v = .err .rTooManyRegisterRules ∧ Rules.get m r = none ∧ N.hasRoom m.length = false) := by
+  rcases Rules.set_eq_err (N := N) (m := m) (r := r) (v := v) with ⟨m', hm'⟩ | h
+  · obtain ⟨h1, h2, h3, _⟩ := Rules.set_ok hm'
+    exact Or.inl ⟨m', hm', h1, h2, h3⟩
+  · exact Or.inr h
+
+/-- `impl PartialEq for RegisterRuleMap` is extensional equality -/
+theorem rule_map_eq_ext (a b : Rules) (ha : Rules.NodupKeys a) (hb : Rules.NodupKeys b) :
+    Rules.eq a b = true ↔ ∀ r, Rules.get a r = Rules.get b r :=
+  Rules.eq_iff_ext ha hb
+
+/-! ## 5. totality -/
+
+/-- **The unwind never panics and never diverges**: for address sizes 1..8 and a row capacity of
+at least 1 the outcome is `ok` or a `gimli::Error`, and at most one row per instruction plus the
+final row is returned. -/
+theorem unwind_total (g : Cfg) (hsz : 1 ≤ g.addressSize ∧ g.addressSize ≤ 8) (hR : g.R.fits 1)
+    (cie fde : List Instr) (cieBad fdeBad : Option Err) (initial len : Nat) :
+    (unwind g cie (tailOf cieBad) fde (tailOf fdeBad) initial len).2.Normal := by
+  have h := (unwind_refines_main g hsz hR cie fde cieBad fdeBad initial len).2
+  generalize (unwind g cie (tailOf cieBad) fde (tailOf fdeBad) initial len).2 = m at h
+  generalize (table g.params g.R g.N cie cieBad fde fdeBad initial len).2 = s at h
+  cases m <;> cases s <;> simp_all [FinalRel, Out.Normal]
+
+/-- **Decoding one instruction is total** and consumes at least the opcode byte -/
+theorem decode_total (c : DecodeCfg) (pos : Nat) (bs : Bytes)
+    (hsz : 1 ≤ c.params.addressSize ∧ c.params.addressSize ≤ 8) :
+    (parse c pos bs).Normal ∧ ∀ i rest, parse c pos bs = .ok (i, rest) → rest.length < bs.length :=
+  ⟨parse_normal c pos bs hsz, fun _ _ h => parse_lt h⟩
+
+/-- **The instruction iterator terminates**: driven to its end it yields at most one instruction
+per byte and stops with `Ok(None)` or an error (the fuel of `decodeAll` always suffices) -/
+theorem decode_all_total (c : DecodeCfg) (base : Nat) (bs : Bytes)
+    (hsz : 1 ≤ c.params.addressSize ∧ c.params.addressSize ≤ 8) :
+    (decodeAll c base bs).2.Normal ∧ (decodeAll c base bs).1.length ≤ bs.length :=
+  ⟨decodeAll_normal c base bs hsz, decodeFuel_length c base bs.length bs.length bs⟩
+
+/-! ## non-vacuity: the hypotheses hold for gimli's default configuration, and every outcome
+class is reachable -/
+
+/-- gimli's default storage on a 64-bit target -/
+def defaultCfg : Cfg := { codeAlign := 1, dataAlign := -8, addressSize := 8, R := some 4, N := some 192 }
+
+example : 1 ≤ defaultCfg.addressSize ∧ defaultCfg.addressSize ≤ 8 := by decide
+example : defaultCfg.R.fits 1 := by simp [defaultCfg, Cap.fits]
+example : Cap.fits (none : Cap) 1 := trivial
+example : Rules.NodupKeys [(1, .undefined), (2, .sameValue)] := by simp [Rules.NodupKeys, Rules.keys]
+
+/-- a table that completes: two rows, contiguous, ending at the FDE's end address -/
+example :
+    (unwind defaultCfg [.defCfa 7 8, .offset 16 1] (tailOf none) [.advanceLoc 4, .defCfaOffset 16] (tailOf none)
+      0x1000 0x20) =
+    ([{ startAddress := 0x1000, endAddress := 0x1004, cfa := .registerAndOffset 7 8, rules := [(16, .offset (-8))] },
+      { startAddress := 0x1004, endAddress := 0x1020, cfa := .registerAndOffset 7 16, rules := [(16, .offset (-8))] }],
+     .ok ()) := by decide
+
+/-- `StackFull`: one row of storage, `DW_CFA_remember_state` -/
+example : (unwind { defaultCfg with R := some 1 } [] (tailOf none) [.rememberState] (tailOf none) 0 8).2 =
+    .err .rStackFull := by decide
+
+/-- `StackFull` from the initial-rule row: two initial rules need a second row -/
+example : (unwind { defaultCfg with R := some 1 } [.undefined 1, .undefined 2] (tailOf none) [] (tailOf none) 0 8).2 =
+    .err .rStackFull := by decide
+
+/-- … while a single initial rule is kept outside the row stack -/
+example : (unwind { defaultCfg with R := some 1 } [.undefined 1] (tailOf none) [.sameValue 1, .restore 1] (tailOf none) 0 8) =
+    ([{ startAddress := 0, endAddress := 8, rules := [(1, .undefined)] }], .ok ()) := by decide
+
+/-- `TooManyRegisterRules`: one rule of storage, two registers -/
+example : (unwind { defaultCfg with N := some 1 } [] (tailOf none) [.undefined 1, .undefined 2] (tailOf none) 0 8).2 =
+    .err .rTooManyRegisterRules := by decide
+
+example : (unwind defaultCfg [] (tailOf none) [.restoreState] (tailOf none) 0 8).2 = .err .rPopWithEmptyStack := by decide
+example : (unwind defaultCfg [.restore 1] (tailOf none) [] (tailOf none) 0 8).2 = .err .rCfiInstructionInInvalidContext := by
+  decide
+example : (unwind { defaultCfg with addressSize := 4 } [] (tailOf none) [.advanceLoc 1] (tailOf none) 0xffffffff 1).2 =
+    .err .rAddressOverflow := by decide
+example : (unwind defaultCfg [] (tailOf none) [.setLoc 5] (tailOf none) 6 1).2 = .err .rInvalidCfiSetLoc := by decide
 
 end Gimli.Props.C06
